@@ -47,10 +47,14 @@ func (t *Tag) AttrMap() map[string]*Attr {
 func (t *Tag) SortedAttr(prefix string) []*Attr {
 	if t.sorted != len(t.Attrs) {
 		weight := map[string]int{
-			attrWith:   -4,
-			attrIf:     -3,
-			attrRange:  -2,
-			attrRemove: -1,
+			attrWith:    -4,
+			attrIf:      -3,
+			attrElse_If: -3,
+			attrElseIf:  -3,
+			attrElIf:    -3,
+			attrElse:    -3,
+			attrRange:   -2,
+			attrRemove:  -1,
 		}
 		sort.SliceStable(t.Attrs, func(i, j int) bool {
 			x, y := t.Attrs[i].Name, t.Attrs[j].Name
